@@ -36,7 +36,70 @@ def x01_events() -> List[Dict[str, Any]]:
     return evs
 
 
+def run_x02(pid: str, tier: str) -> int:
+    """Malformed ready-lines: model (Table.tla ReadyFault*) and real server."""
+    from . import core, table, tablemodel
+    from .core import rng, seed, pmap
+    core.EVIDENCE = VERIF / 'evidence_extra'
+    chk = Check(pid, tier)
+    chk.rule = 'a case is one session in which one seat sends a malformed ready-line on board k'
+    r = rng('x02')
+    b0 = tablemodel.small_board(r, 1, 0, 1)
+    b1 = tablemodel.small_board(r, 1, 1, 2)
+    po = [35] * 4
+    scr = [tablemodel.script_for(*b0, po, 1, r), tablemodel.script_for(*b1, po, 1, r)]
+    for fault in ((1, 'ready-deal', 2), (2, 'ready-cards', 0), (2, 'ready-deal', 3)):
+        tablemodel.run_model(chk, f'Table: malformed ready-line {fault}: hangs, log open, one error',
+                             tablemodel.GOOD, [b0, b1], scr, 1, fault=fault,
+                             invs=['ReadyFaultHangs', 'ReadyFaultOneError', 'LogPrefix', 'BarrierShape'],
+                             props=[], deadlock=False, workers=12)
+    jobs = []
+    for q in range(24 if tier == 'quick' else 400):
+        nb = 1 + q % 3
+        k = 1 + (q // 3) % nb
+        boards = table.rand_boards(r, nb)
+        line = [b'ready for deal\r\n', b'ready for cards\r\n'][q % 2]
+        cfg = {'boards': boards, 'seed': r.randrange(1 << 30),
+               'styles': [{'auction': 'weak' if q % 4 else 'passout'}] * 4, 'vary': False,
+               'policy_spec': table.POLICIES[q % len(table.POLICIES)],
+               'fault': {'board': k, 'seat': q % 4, 'phase': 'ready', 'index': 0, 'kind': 'bad-ready',
+                         'line': line}}
+        jobs.append((f'x{q}', cfg, 'ready-fault', k - 1))
+    events = pmap(_x02_job, jobs, chunk=2)
+    for e in events:
+        chk.count(e['tid'])
+    chk.sample({k: events[0][k] for k in ('tid', 'done', 'stuck', 'offender', 'others_closed')})
+    rejects = validate_traces(chk, 'TableTrace', events, 'malformed ready-lines: real server vs Table.tla',
+                              shards=8)
+    report_rejects(chk, rejects, 'readyfault', key_of=lambda x: f'readyfault:{x.clause}')
+    return chk.finish()
+
+
+def _x02_job(job):
+    from . import table
+    from .session import run_session
+    tid, cfg, kind, completed = job
+    cfg = dict(cfg)
+    spec = cfg['policy_spec']
+    cfg['policy'] = lambda rnd: table.make_policy(spec, rnd)
+    cfg['outdir'] = str(tlc.workdir())
+    cfg['tag'] = tid
+    cfg['record_blocks'] = False
+    res = run_session(cfg)
+    e = table.session_event(tid, cfg, res, kind, completed)
+    seat = cfg['fault']['seat']
+    off = next(c for c in res['conns'] if c['seat'] == seat)
+    st = res.get('at_stuck') or {}
+    txt = (st.get('file') or '')
+    e['stuck'] = {'main_alive': bool(st.get('main_alive')), 'file_closed': txt.rstrip().endswith(']}')}
+    e['offender'] = {'last': off['s2c'][-1][1] if off['s2c'] else '', 'server_closed': bool(off['server_closed'])}
+    e['others_closed'] = any(c['server_closed'] for c in res['conns'] if c['seat'] != seat)
+    return e
+
+
 def run(pid: str, tier: str) -> int:
+    if pid == 'X02':
+        return run_x02(pid, tier)
     os.environ['VERIF_EVIDENCE_DIR'] = str(VERIF / 'evidence_extra')
     from . import core
     core.EVIDENCE = VERIF / 'evidence_extra'
